@@ -923,6 +923,10 @@ pub fn run(args: &Args) -> i32 {
     port_states(&rt, &mut ev);
     ev.sample(json!({"client_scenario": "rodbus_client_channel_read_holding_registers(unit, range, timeout) against a scripted peer answering [genuine, exception 0x01..0xFF, bad response, silence, ...]; the same list through rodbus::client::Channel", "server_scenario": "WriteHandler callbacks returning {success | exception enum | Unknown+raw code} for FC05/06/15/16 observed by a raw TCP client"}));
     unsafe { ffi::rodbus_runtime_destroy(rt.0) };
+    if args.tier == Tier::Thorough && !args.extra.contains_key("no-legs") {
+        crate::legs::miri_ffi(args, "C18", &mut ev);
+        crate::legs::asan(args, "c18", "C18", &mut ev);
+    }
     let meta = Meta {
         property_id: "C18",
         level: "exploration",
